@@ -3,6 +3,7 @@
 use super::exec::*;
 use super::mon_access::AccessMonitor;
 use super::mon_flow::{FlowMonitor, FrameMonitor};
+use super::mon_gas::GasMonitor;
 use super::mon_kv::{KvMonitor, Kv};
 use super::mon_ledger::{self, LedgerMonitor};
 use fuel_vm::storage::ContractsAssetsStorage;
@@ -70,6 +71,7 @@ pub fn run(prop: &str, world: &World, sc: &Scenario, ctx: &mut RunCtx) {
             v
         };
         let mut ledger = LedgerMonitor::new(prior_balances.clone(), tx_assets.clone());
+        let mut gas = GasMonitor::new(world.params.gas_costs().clone());
 
         let (outcome, violation, known_hits) = {
             let mut obs = Observer::new(ctx.stats);
@@ -83,6 +85,7 @@ pub fn run(prop: &str, world: &World, sc: &Scenario, ctx: &mut RunCtx) {
                 "C25" => obs.monitors.push(&mut flow),
                 "C34" => obs.monitors.push(&mut frames),
                 "C24" => obs.monitors.push(&mut mem),
+                "C26" => obs.monitors.push(&mut gas),
                 "C27" => {
                     obs.want_log = true;
                     obs.monitors.push(&mut ledger);
@@ -137,6 +140,25 @@ pub fn run(prop: &str, world: &World, sc: &Scenario, ctx: &mut RunCtx) {
             "C24" => {
                 if mem.refused_in_call || mem.callee_heap_write {
                     ctx.nontrivial = true;
+                }
+            }
+            "C26" => {
+                if gas.oog_in_multistage || gas.nested_return_with_unspent {
+                    ctx.nontrivial = true;
+                }
+                if gas.oog_in_multistage && gas.nested_return_with_unspent {
+                    ctx.stats.inc("probe.strict_c26_nontrivial");
+                }
+                // gas reported in the script result = gas limit − remaining global gas
+                if !outcome.is_err && !outcome.truncated {
+                    if let Some(fuel_tx::Receipt::ScriptResult { gas_used, .. }) = outcome.receipts.last() {
+                        let remaining = vm.registers()[9];
+                        if spec.gas_limit.checked_sub(remaining) != Some(*gas_used) {
+                            if ctx.violate("script-result-gas", "script-result-gas", format!("tx {i}: ScriptResult.gas_used = {gas_used} but script gas limit {} − remaining $ggas {remaining} = {:?}", spec.gas_limit, spec.gas_limit.checked_sub(remaining))) {
+                                return;
+                            }
+                        }
+                    }
                 }
             }
             "C27" => {
